@@ -9,6 +9,7 @@ import (
 	"math"
 
 	"github.com/RoaringBitmap/roaring"
+	"github.com/blevesearch/vellum"
 	segment "github.com/blugelabs/bluge_segment_api"
 )
 
@@ -88,3 +89,66 @@ func VerifInterimPostings(results []segment.Document, normCalc func(string, int)
 	}
 	return fields, out, nil
 }
+
+// The three chunk coders, exposed so that the harness can run operation
+// scripts on them next to their models.
+
+// VerifIntCoder wraps a chunkedIntCoder.
+type VerifIntCoder struct{ c *chunkedIntCoder }
+
+func VerifNewIntCoder(chunkSize, maxDocNum uint64) *VerifIntCoder {
+	return &VerifIntCoder{newChunkedIntCoder(chunkSize, maxDocNum)}
+}
+func (v *VerifIntCoder) Reset() { v.c.Reset() }
+func (v *VerifIntCoder) SetChunkSize(chunkSize, maxDocNum uint64) {
+	v.c.SetChunkSize(chunkSize, maxDocNum)
+}
+func (v *VerifIntCoder) Add(docNum uint64, vals ...uint64) error { return v.c.Add(docNum, vals...) }
+func (v *VerifIntCoder) Close() error                            { return v.c.Close() }
+func (v *VerifIntCoder) Write(w io.Writer) (int, error)          { return v.c.Write(w) }
+
+// VerifContentCoder wraps a chunkedContentCoder writing into its own buffer.
+type VerifContentCoder struct {
+	c   *chunkedContentCoder
+	Out bytes.Buffer
+}
+
+func VerifNewContentCoder(chunkSize, maxDocNum uint64, progressiveWrite bool) *VerifContentCoder {
+	v := &VerifContentCoder{}
+	v.c = newChunkedContentCoder(chunkSize, maxDocNum, &v.Out, progressiveWrite)
+	return v
+}
+func (v *VerifContentCoder) Reset()                               { v.c.Reset() }
+func (v *VerifContentCoder) Add(docNum uint64, vals []byte) error { return v.c.Add(docNum, vals) }
+func (v *VerifContentCoder) Close() error                         { return v.c.Close() }
+func (v *VerifContentCoder) Write() (int, error)                  { return v.c.Write() }
+
+// VerifDocumentCoder wraps a chunkedDocumentCoder writing into its own buffer.
+type VerifDocumentCoder struct {
+	c   *chunkedDocumentCoder
+	Out bytes.Buffer
+}
+
+func VerifNewDocumentCoder(chunkSize uint64) *VerifDocumentCoder {
+	v := &VerifDocumentCoder{}
+	v.c = newChunkedDocumentCoder(chunkSize, &v.Out)
+	return v
+}
+func (v *VerifDocumentCoder) Add(docNum uint64, meta, data []byte) (int, error) {
+	return v.c.Add(docNum, meta, data)
+}
+func (v *VerifDocumentCoder) Write() error      { return v.c.Write() }
+func (v *VerifDocumentCoder) Size() uint64      { return v.c.Size() }
+func (v *VerifDocumentCoder) Offsets() []uint64 { return v.c.Offsets() }
+
+// VerifEnumerator wraps the k-way merge of dictionary iterators.
+type VerifEnumerator struct{ e *enumerator }
+
+func VerifNewEnumerator(itrs []vellum.Iterator) (*VerifEnumerator, error) {
+	e, err := newEnumerator(itrs)
+	return &VerifEnumerator{e}, err
+}
+func (v *VerifEnumerator) Current() ([]byte, int, uint64)         { return v.e.Current() }
+func (v *VerifEnumerator) GetLowIdxsAndValues() ([]int, []uint64) { return v.e.GetLowIdxsAndValues() }
+func (v *VerifEnumerator) Next() error                            { return v.e.Next() }
+func (v *VerifEnumerator) Close() error                           { return v.e.Close() }
